@@ -134,6 +134,21 @@ def gen_curves(rng, per_scale):
     out = []
     kinds = ['line', 'quad', 'quad-probe', 'cubic', 'arc', 'path2', 'path3', 'path4', 'quad', 'cubic', 'arc', 'path3']
     for S in SCALES:
+        # paths that contain EQUAL segments at different positions (Path.t2T / Path.index must
+        # address the segment by position): a stroke drawn forth-back-forth, a closed curve of two
+        # half arcs traced twice, the same cubic / quadratic passed twice around another segment
+        off = rnd_c(rng) * S * rng.choice([0, 1])
+        a, b = rnd_c(rng), rnd_c(rng) + 2
+        r = rng.uniform(0.5, 2)
+        h1 = ('arc', [a, complex(r, r), 0.0, False, True, a + 2 * r])
+        h2 = ('arc', [a + 2 * r, complex(r, r), 0.0, False, True, a])
+        cub = unit_segment(rng, 'cubic', start=a)
+        qd = unit_segment(rng, 'quad', start=a)
+        ln = ('line', [cub[1][-1], a])
+        for segs in ([('line', [a, b]), ('line', [b, a]), ('line', [a, b])],
+                     [h1, h2, h1, h2],
+                     rng.choice([[cub, ln, cub], [qd, ('line', [qd[1][-1], a]), qd, ('line', [qd[1][-1], a])]])):
+            out.append({'type': 'path', 'scale': S, 'repeated': True, 'segs': [scale_seg(sg, S, off) for sg in segs]})
         for kind in kinds[:per_scale]:
             off = rnd_c(rng) * S * rng.choice([0, 1, 10])
             if kind.startswith('path'):
@@ -380,7 +395,7 @@ def run(rep, tier, seed, replay=None):
         evals, nontriv, dist = 0, 0, {}
         stalls, slowest = 0, 0.0
         for desc in curves:
-            dname = '%s@%g' % ('path%d' % len(desc['segs']) if desc['type'] == 'path' else desc['segs'][0][0], desc['scale'])
+            dname = '%s@%g' % (('path%d' % len(desc['segs']) + ('-repeated' if desc.get('repeated') else '')) if desc['type'] == 'path' else desc['segs'][0][0], desc['scale'])
             dist[dname] = dist.get(dname, 0) + 1
             try:
                 with warnings.catch_warnings():
@@ -398,9 +413,12 @@ def run(rep, tier, seed, replay=None):
             if desc['type'] == 'path':
                 lens = [float(sg.length()) for sg in c0]
                 acc = 0.0
-                for lk in lens[:-1]:
+                for i_, lk in enumerate(lens):
+                    # a grid inside every segment (path-level monotonicity / inverse over all segments)
+                    svals += [acc + lk * f_ for f_ in ((0.25, 0.5, 0.75) if desc.get('repeated') else (0.5,))]
                     acc += lk
-                    svals += [acc, math.nextafter(acc, math.inf), math.nextafter(acc, -math.inf)]
+                    if i_ < len(lens) - 1:
+                        svals += [acc, math.nextafter(acc, math.inf), math.nextafter(acc, -math.inf)]
             svals += [rng.uniform(0, L) for _ in range(nrand)] + [L / 3] + desc.get('extra_s', [])
             if forced_s is not None:
                 svals = forced_s
